@@ -257,6 +257,8 @@ pub struct Parser {
     t: Vec<Tok>,
     p: usize,
     types: HashSet<String>,
+    /// enclosing user namespaces of the declaration being read
+    ns: Vec<String>,
     /// names declared with a template header: only these are followed by template arguments
     templates: HashSet<String>,
     /// type names hidden by a variable or parameter of the same name in the enclosing blocks
@@ -286,7 +288,7 @@ pub fn builtin_type(name: &str) -> Option<TyE> {
 
 impl Parser {
     pub fn new(tokens: Vec<Tok>) -> Parser {
-        Parser { t: tokens, p: 0, types: HashSet::new(), templates: HashSet::new(), shadowed: Vec::new() }
+        Parser { t: tokens, p: 0, types: HashSet::new(), ns: Vec::new(), templates: HashSet::new(), shadowed: Vec::new() }
     }
 
     fn peek(&self) -> &Tok {
@@ -334,7 +336,8 @@ impl Parser {
 
     /// a possibly qualified name: a, A::b, metal::min
     fn qualified(&mut self) -> PR<String> {
-        let mut s = self.ident()?;
+        // a leading :: (lookup from the root scope only) stays part of the name
+        let mut s = if self.eat_p("::") { format!("::{}", self.ident()?) } else { self.ident()? };
         while self.is_p("::") {
             self.p += 1;
             s.push_str("::");
@@ -354,6 +357,10 @@ impl Parser {
                 _ => break,
             }
         }
+        let absolute = matches!(self.peek_at(k), Tok::P("::")) && matches!(self.peek_at(k + 1), Tok::Id(_));
+        if absolute {
+            k += 1;
+        }
         let Tok::Id(first) = self.peek_at(k) else { return None };
         let mut name = first.clone();
         k += 1;
@@ -371,8 +378,8 @@ impl Parser {
             TyE::TrueType
         } else if let Some(t) = builtin_type(&bare) {
             t
-        } else if self.types.contains(&bare) && !self.shadowed.contains(&bare) {
-            TyE::Named(bare)
+        } else if let Some(full) = resolve_type_name(&self.types, &self.shadowed, &self.ns, &bare, absolute) {
+            TyE::Named(full)
         } else {
             return None;
         };
@@ -437,8 +444,9 @@ impl Parser {
     pub fn unit(&mut self) -> PR<Unit> {
         let mut u = Unit::default();
         // enclosing user namespaces: declarations inside get qualified names
-        let mut ns: Vec<String> = Vec::new();
+        self.ns.clear();
         loop {
+            let ns: Vec<String> = self.ns.clone();
             let mut attrs = Vec::new();
             self.skip_attributes(&mut attrs)?;
             if matches!(self.peek(), Tok::Eof) {
@@ -463,18 +471,19 @@ impl Parser {
                         }
                     }
                 } else {
-                    ns.push(ns_name);
+                    self.ns.push(ns_name);
                 }
                 continue;
             }
             if !ns.is_empty() && self.is_p("}") {
                 // end of a user namespace (an optional trailing comment was removed by the lexer)
                 self.p += 1;
-                ns.pop();
+                self.ns.pop();
                 continue;
             }
             if self.eat_id("enum") {
                 let name = self.ident()?;
+                let name = if ns.is_empty() { name } else { format!("{}::{}", ns.join("::"), name) };
                 self.types.insert(name.clone());
                 self.expect_p("{")?;
                 let mut values = Vec::new();
@@ -493,6 +502,7 @@ impl Parser {
             }
             if self.eat_id("struct") {
                 let name = self.ident()?;
+                let name = if ns.is_empty() { name } else { format!("{}::{}", ns.join("::"), name) };
                 self.types.insert(name.clone());
                 self.expect_p("{")?;
                 let mut fields = Vec::new();
@@ -955,7 +965,7 @@ impl Parser {
 
     fn type_at_offset(&self, k: usize) -> Option<(TyE, usize)> {
         // type_at works relative to self.p: emulate an offset
-        let view = ParserView { t: &self.t, p: self.p + k, types: &self.types, shadowed: &self.shadowed };
+        let view = ParserView { t: &self.t, p: self.p + k, types: &self.types, shadowed: &self.shadowed, ns: &self.ns };
         view.type_at()
     }
 
@@ -987,6 +997,27 @@ impl Parser {
                 let e = self.expr()?;
                 self.expect_p(")")?;
                 Ok(e)
+            }
+            Tok::P("::") if matches!(self.peek_at(1), Tok::Id(_)) => {
+                // ::name, ::f(...), ::S { ... } : looked up from the root scope only
+                if let Some((ty, n)) = self.type_at(0) {
+                    if matches!(self.peek_at(n), Tok::P("(")) {
+                        self.p += n;
+                        let a = self.args()?;
+                        return Ok(Ex::Ctor(ty, a));
+                    }
+                    if matches!(self.peek_at(n), Tok::P("{")) {
+                        self.p += n;
+                        let Init::List(items) = self.initializer()? else { unreachable!() };
+                        return Ok(Ex::Brace(ty, items));
+                    }
+                }
+                let name = self.qualified()?;
+                if self.is_p("(") {
+                    let a = self.args()?;
+                    return Ok(Ex::Call(name, Vec::new(), a));
+                }
+                Ok(Ex::Name(name))
             }
             Tok::Id(id) => {
                 if id == "true" || id == "false" {
@@ -1118,6 +1149,7 @@ struct ParserView<'a> {
     t: &'a [Tok],
     p: usize,
     types: &'a HashSet<String>,
+    ns: &'a [String],
     shadowed: &'a [String],
 }
 
@@ -1132,6 +1164,10 @@ impl ParserView<'_> {
                 Tok::Id(q) if matches!(q.as_str(), "const" | "thread" | "threadgroup" | "constant" | "device") => k += 1,
                 _ => break,
             }
+        }
+        let absolute = matches!(self.at(k), Tok::P("::")) && matches!(self.at(k + 1), Tok::Id(_));
+        if absolute {
+            k += 1;
         }
         let Tok::Id(first) = self.at(k) else { return None };
         let mut name = first.clone();
@@ -1150,12 +1186,34 @@ impl ParserView<'_> {
             TyE::TrueType
         } else if let Some(t) = builtin_type(&bare) {
             t
-        } else if self.types.contains(&bare) && !self.shadowed.contains(&bare) {
-            TyE::Named(bare)
+        } else if let Some(full) = resolve_type_name(self.types, self.shadowed, self.ns, &bare, absolute) {
+            TyE::Named(full)
         } else {
             return None;
         };
         Some((ty, k))
+    }
+}
+
+/// A type name as C++ finds it: from the enclosing namespaces outward, or from the root scope only after a leading ::
+/// (struct and enum names are kept with their namespaces)
+fn resolve_type_name(types: &HashSet<String>, shadowed: &[String], ns: &[String], written: &str, absolute: bool) -> Option<String> {
+    if absolute {
+        return if types.contains(written) { Some(written.to_string()) } else { None };
+    }
+    if shadowed.iter().any(|x| x == written) {
+        return None;
+    }
+    let mut prefix = ns.to_vec();
+    loop {
+        let full = if prefix.is_empty() { written.to_string() } else { format!("{}::{}", prefix.join("::"), written) };
+        if types.contains(&full) {
+            return Some(full);
+        }
+        if prefix.is_empty() {
+            return None;
+        }
+        prefix.pop();
     }
 }
 
